@@ -11,7 +11,9 @@ props = [json.loads(l)["id"] for l in open(os.path.join(VERIF, "properties.jsonl
 
 checks, na = [], []
 for pid in props:
-    hs = [h for h in harnesses if pid in h["props"]]
+    hs = [h for h in harnesses if pid in h["props"] and h["tier"] in ("quick", "thorough")]
+    if not [h for h in hs if h["tier"] == "quick"]:
+        hs = []
     c = claims.get(pid, {})
     if not hs or c.get("not_applicable"):
         na.append({"property_id": pid, "reason": c.get("not_applicable") or "no harness built yet for this property (work in progress; see DESIGN.md section 4)"})
